@@ -236,7 +236,9 @@ def execute_plan(prop, tier, seed, plan, say):
     violations, machinery = [], []
     cov = dict(evaluations=0, distinct_nontrivial=0, rule=plan["rule"], samples=[], stages=[], fault_fired={}, probes={},
                components=COMPONENTS, steps_total=0,
-               simulated_time_note="cctz has no clock or timers; simulated time is reported as logical steps (yield points executed)")
+               simulated_seconds_total=0,
+               simulated_time_note="cctz has no clock or timers, so progress is reported as logical steps (yield points executed); simulated_seconds_total is the "
+                                   "simulated calendar time that passed between calls (conc engine: seconds to days between ops; C14 histories: 40 days per call)")
     keys = set()
     template_sigs = {}
     seeded_sigs = {}
@@ -272,6 +274,7 @@ def execute_plan(prop, tier, seed, plan, say):
             violations += res.violations
             cov["evaluations"] += res.runs
             cov["steps_total"] += res.stats.get("steps_total", 0)
+            cov["simulated_seconds_total"] += res.stats.get("sim_seconds", 0)
             if st.get("template"):
                 seeded_sigs.setdefault(st["template"], set()).update(res.keys)
             else:
